@@ -56,7 +56,7 @@ Proof.
   assert (C1 : forall c, carg_ok c -> carg_ok (dealias_c l c)).
   { intros [|x|off] H; cbn; trivial. split; [now apply nulfree_dropN|rewrite lenN_dropN; lia]. }
   induction o; cbn [dealias args_ok]; intros A; try exact A; try (now apply S1); try (now apply C1); try (exact (IHo A)).
-  all: destruct A as [A1 A2]; split; now apply S1.
+  all: destruct A as [A1 A2]; split; [now apply S1|first [now apply S1|exact A2]].
 Qed.
 Lemma dealias_need l o : need l (dealias l o) = need l o.
 Proof. induction o; cbn [dealias need]; rewrite ?lit_of_dealias, ?clit_of_dealias; trivial. Qed.
